@@ -165,16 +165,17 @@ class Tier:
         self.va12 = (["1", "0", "127", "128", "-129", "1.5", "nil", "M1", "M2", "S3", "U5"] if q else
                      ["1", "0", "-1", "127", "128", "-128", "-129", "1.5", "3e9", "nil", '"s"', "M1", "M2", "S3", "U5"])
         self.va3 = (["1", "128", "nil", "M1", "U5"] if q else
-                    ["1", "0", "127", "128", "1.5", "nil", "M1", "M2", "S3", "U5"])
+                    ["1", "0", "127", "128", "-129", "1.5", "3e9", "nil", '"s"', "M1", "M2", "S3", "U5"])
         self.va456 = ["1", "M1"] if q else ["1", "128", "M1"]
+        self.va4_extra = [] if q else ["nil", "S3"]
         # ---- comparators
         self.vb12 = (["1", "127", "128", "-129", "1.5", "NAN", "nil", '"s"', "S3", "M1"] if q else
                      ["1", "0", "127", "128", "-128", "-129", "1.5", "NAN", "nil", '"s"', ":k", "S3", "U5", "M1"])
         self.vb3 = (["1", "128", "nil", "S3"] if q else
-                    ["1", "127", "128", "1.5", "nil", '"s"', "S3", "NAN"])
+                    ["1", "0", "127", "128", "-129", "1.5", "nil", '"s"', "S3", "U5", "NAN"])
         self.vb456 = ["1", "128"] if q else ["1", "128", "nil"]
         # ---- contexts section
-        self.vctx = ["1", "nil", "M1"] if q else ["1", "128", "nil", "M1"]
+        self.vctx = ["1", "nil", "M1"] if q else ["1", "128", "nil", "M1", "S3"]
         self.vctx3 = ["1"] if q else ["1", "M1"]
         self.ctxs = ["val", "drop", "set", "if", "while", "up", "upt", "setg", "far", "farset"]
         # ---- alias section
@@ -221,8 +222,8 @@ def variadic_cases(f, tier, bound):
         vals = tier.vb456 if comp else tier.va456
         for n in (4, 5, 6):
             vv = vals
-            if n == 4 and not tier.quick:
-                vv = vals + ["nil"] if "nil" not in vals else vals
+            if n == 4:
+                vv = vals + [v for v in tier.va4_extra if v not in vals]
             for vs in product(vv, repeat=n):
                 yield (f, vs, routes_block(n, rot_patterns(n), "T" * n))
 
@@ -426,6 +427,15 @@ def alias_cases(f, tier):
                     vs = tuple(sv if (mask >> i) & 1 else base[i] for i in range(n))
                     for c in emit(vs):
                         yield c
+
+
+ORDER_FUNCS = ("<", ">", "<=", ">=", "cmp")
+
+
+def pointer_order(f, vals):
+    """True when the outcome would depend on the addresses of two distinct tables (janet orders
+    reference types by address): such cases are not enumerated -- no oracle may depend on pointer order."""
+    return f in ORDER_FUNCS and len(set(v for v in vals if v in ("M1", "M2", "M3"))) >= 2
 
 
 def sections(tier):
